@@ -6,6 +6,7 @@ package vdisk
 import (
 	"fmt"
 	"sync"
+	"time"
 )
 
 const BlockSize = 4096
@@ -37,10 +38,12 @@ type Disk struct {
 	// optional raw-read observer (under mu)
 	OnRead func(a uint64, data []byte)
 	// Yield, when set, is called after a read or write has completed (no lock held)
-	Yield  func(kind string, a uint64)
-	Reads  uint64
-	Writes uint64
-	Barrs  uint64
+	Yield func(kind string, a uint64)
+	// SlowBarrier, when set, is how long a barrier is "in flight" before it takes effect
+	SlowBarrier time.Duration
+	Reads       uint64
+	Writes      uint64
+	Barrs       uint64
 }
 
 func New(sz uint64) *Disk {
@@ -97,6 +100,9 @@ func (d *Disk) Write(a uint64, v []byte) {
 func (d *Disk) Size() uint64 { return d.sz }
 
 func (d *Disk) Barrier() {
+	if d.SlowBarrier > 0 { // a barrier takes its time: it has flushed what was written before it when it RETURNS
+		time.Sleep(d.SlowBarrier)
+	}
 	d.mu.Lock()
 	d.Barrs++
 	if d.rec {
